@@ -38,7 +38,7 @@ func echoSvc(pkg, name, in, out string, verb int32, path string) *spec.Service {
 
 func buildCatalogue(c *Ctx) []buildCase {
 	var out []buildCase
-	feats := corpus.Features()
+	feats := append(corpus.Features(), corpus.FeaturesNested(c.Thorough(), int(c.Seed))...)
 	// 1. every JSON-mapping feature: bare, with service, with all contexts
 	for i, f := range feats {
 		i, f := i, f
